@@ -1,0 +1,151 @@
+//go:build verif
+
+package crypto
+
+// Verification hook (build tag `verif` only): when the environment variable VERIF_DKG_TRACE_DIR is set, every DKG
+// instance created by the package constructors is wrapped so that each public call (with its arguments and the class
+// of its result) and each processor callback it triggers is appended, in order, to one ndjson file per instance.
+// Nothing is changed in the behaviour of the instance.
+
+import (
+	"encoding/hex"
+	"encoding/json"
+	"fmt"
+	"os"
+	"path/filepath"
+	"sync"
+	"sync/atomic"
+)
+
+var verifTraceCounter uint64
+
+type verifDKGEvent struct {
+	E     string `json:"e"` // new | call | bcast | priv | disq | flag
+	Kind  string `json:"kind,omitempty"`
+	N     int    `json:"n,omitempty"`
+	T     int    `json:"t,omitempty"`
+	Me    int    `json:"me"`
+	Deal  int    `json:"dealer"`
+	Op    string `json:"op,omitempty"`
+	Orig  int    `json:"orig"`
+	Data  string `json:"data"`
+	Class string `json:"class,omitempty"`
+	Run   bool   `json:"running"`
+}
+
+type verifDKGTrace struct {
+	mu sync.Mutex
+	f  *os.File
+	me int
+	dl int
+}
+
+func (t *verifDKGTrace) emit(ev verifDKGEvent) {
+	ev.Me, ev.Deal = t.me, t.dl
+	b, _ := json.Marshal(ev)
+	t.mu.Lock()
+	t.f.Write(append(b, '\n'))
+	t.mu.Unlock()
+}
+
+type verifDKGProcessor struct {
+	inner DKGProcessor
+	t     *verifDKGTrace
+}
+
+func (p *verifDKGProcessor) PrivateSend(dest int, data []byte) {
+	p.t.emit(verifDKGEvent{E: "priv", Orig: dest, Data: hex.EncodeToString(data)})
+	p.inner.PrivateSend(dest, data)
+}
+func (p *verifDKGProcessor) Broadcast(data []byte) {
+	p.t.emit(verifDKGEvent{E: "bcast", Data: hex.EncodeToString(data)})
+	p.inner.Broadcast(data)
+}
+func (p *verifDKGProcessor) Disqualify(index int, log string) {
+	p.t.emit(verifDKGEvent{E: "disq", Orig: index})
+	p.inner.Disqualify(index, log)
+}
+func (p *verifDKGProcessor) FlagMisbehavior(index int, log string) {
+	p.t.emit(verifDKGEvent{E: "flag", Orig: index})
+	p.inner.FlagMisbehavior(index, log)
+}
+
+type verifDKGWrapper struct {
+	DKGState
+	t *verifDKGTrace
+}
+
+func verifErrClass(err error) string {
+	switch {
+	case err == nil:
+		return "nil"
+	case IsDKGInvalidStateTransitionError(err):
+		return "ST"
+	case IsInvalidInputsError(err):
+		return "II"
+	case IsDKGFailureError(err):
+		return "F"
+	}
+	return "other"
+}
+
+func (w *verifDKGWrapper) call(op string, orig int, data []byte, f func() error) error {
+	w.t.emit(verifDKGEvent{E: "call", Op: op, Orig: orig, Data: hex.EncodeToString(data)})
+	err := f()
+	w.t.emit(verifDKGEvent{E: "ret", Op: op, Class: verifErrClass(err), Run: w.DKGState.Running()})
+	return err
+}
+
+func (w *verifDKGWrapper) Start(seed []byte) error {
+	return w.call("Start", -1, nil, func() error { return w.DKGState.Start(seed) })
+}
+func (w *verifDKGWrapper) HandleBroadcastMsg(orig int, msg []byte) error {
+	return w.call("HB", orig, msg, func() error { return w.DKGState.HandleBroadcastMsg(orig, msg) })
+}
+func (w *verifDKGWrapper) HandlePrivateMsg(orig int, msg []byte) error {
+	return w.call("HP", orig, msg, func() error { return w.DKGState.HandlePrivateMsg(orig, msg) })
+}
+func (w *verifDKGWrapper) NextTimeout() error {
+	return w.call("NextTimeout", -1, nil, func() error { return w.DKGState.NextTimeout() })
+}
+func (w *verifDKGWrapper) ForceDisqualify(p int) error {
+	return w.call("FD", p, nil, func() error { return w.DKGState.ForceDisqualify(p) })
+}
+func (w *verifDKGWrapper) End() (PrivateKey, PublicKey, []PublicKey, error) {
+	var sk PrivateKey
+	var pk PublicKey
+	var pks []PublicKey
+	err := w.call("End", -1, nil, func() error {
+		var e error
+		sk, pk, pks, e = w.DKGState.End()
+		return e
+	})
+	return sk, pk, pks, err
+}
+
+func verifTraceDKG(kind string, s DKGState, dealerIndex int) DKGState {
+	dir := os.Getenv("VERIF_DKG_TRACE_DIR")
+	if dir == "" {
+		return nil
+	}
+	var common *dkgCommon
+	switch st := s.(type) {
+	case *feldmanVSSstate:
+		common = st.dkgCommon
+	case *feldmanVSSQualState:
+		common = st.dkgCommon
+	case *JointFeldmanState:
+		common = st.dkgCommon
+	default:
+		return nil
+	}
+	id := atomic.AddUint64(&verifTraceCounter, 1)
+	f, err := os.Create(filepath.Join(dir, fmt.Sprintf("dkg-%d-%06d.ndjson", os.Getpid(), id)))
+	if err != nil {
+		return nil
+	}
+	t := &verifDKGTrace{f: f, me: int(common.myIndex), dl: dealerIndex}
+	t.emit(verifDKGEvent{E: "new", Kind: kind, N: common.size, T: common.threshold})
+	common.processor = &verifDKGProcessor{inner: common.processor, t: t}
+	return &verifDKGWrapper{DKGState: s, t: t}
+}
